@@ -5,15 +5,6 @@ import ESV.Comp.CgStmts
 namespace ESV.Comp
 open ESV ESV.Beh
 
-/-- the loop and case stacks are as before -/
-def SameStk (s s' : St) : Prop := s'.loops = s.loops ∧ s'.cases = s.cases
-
-theorem SameStk.refl (s : St) : SameStk s s := ⟨rfl, rfl⟩
-theorem SameStk.trans {a b c : St} (h1 : SameStk a b) (h2 : SameStk b c) : SameStk a c :=
-  ⟨h2.1.trans h1.1, h2.2.trans h1.2⟩
-theorem sameStk_tickedOp (s : St) (n : Nat) : SameStk s (s.tickedOp n) := ⟨rfl, rfl⟩
-theorem sameStk_tickedLbl (s : St) (n : Nat) : SameStk s (s.tickedLbl n) := ⟨rfl, rfl⟩
-
 /-- header jumps: one label jump per blueprint, with the blueprint's op, to the label `tgt` chooses -/
 inductive HdrsTo (tgt : BP → Nat) : List BP → List LItem → Prop where
   | nil : HdrsTo tgt [] []
